@@ -520,7 +520,10 @@ class SRatio:
         neg = z3.Or(z3.And(s.n < 0, s.d > 0), z3.And(s.n > 0, s.d < 0))
         return SInt(z3.If(neg, qc, q))
 
-    __int__ = __trunc__
+    def __int__(s):
+        # the builtin int() insists on a real int: concretise (modules whose int() should stay symbolic bind the name `int` to ShimInt,
+        # which calls __trunc__ instead)
+        return int(s._float())
 
     def is_integer(s):
         return ENG.branch(s.n % s.d == 0)
